@@ -7,9 +7,10 @@ Not decided: equality of greedy actions / updates (runtime values).
 from __future__ import annotations
 
 import ast
-from typing import List, Optional, Set
+from dataclasses import dataclass, field
+from typing import List, Optional, Set, Tuple
 
-from ..cfg import CFG
+from ..cfg import CFG, Node
 from ..core import AnalysisError, Cls, Fn, Repo, call_name, calls_in, dotted, get_kw, last_attr, short, walk_no_nested
 from ..domains import ALIAS, FRESH, SHALLOW, UNKNOWN, OwnEval, conjuncts, disjuncts
 from ..libsummaries import TRUSTED, torch_optimizer_load_copies_state
@@ -567,6 +568,105 @@ def r7_overrides_complete(ck: Check, repo: Repo) -> None:
 
 
 # --------------------------------------------------------------------------------------------- C01.8
+@dataclass
+class Member:
+    """One way an element gets into a local list: an element of the list display that defines the list, or the argument of a call that adds to it."""
+    elt: ast.AST  # the element expression
+    node: Node  # the CFG node that evaluates it
+    site: ast.AST  # the call / the defining assignment (what a report points at)
+    how: str  # display | comp | append | insert | extend
+    conds: List[Tuple[ast.AST, bool]] = field(default_factory=list)  # conditional expressions inside the defining value: (test, outcome under which the element is there)
+    pos: int = 0  # position inside its display
+
+
+@dataclass
+class ListBuild:
+    """How a local list is put together, whatever the spelling: `x = []` + `x.append(e)` in a branch, `x = [e] if c else []`, `x = [e]` / `x = []` on
+    the two arms of an `if`, `[a] + [b]` ... all yield the same members (with the conditions under which they are added)."""
+    name: Optional[str]
+    defs: List[Node] = field(default_factory=list)  # the statements that bind the name to a (new) list
+    members: List[Member] = field(default_factory=list)
+    not_lists: List[ast.AST] = field(default_factory=list)  # values bound to the name that are not a new list object
+    problems: List[str] = field(default_factory=list)  # constructs on the list that the model does not describe (the member sequence is then unknown)
+
+
+def _strip_not(test: ast.AST, pol: bool = True) -> Tuple[ast.AST, bool]:
+    while isinstance(test, ast.UnaryOp) and isinstance(test.op, ast.Not):
+        test, pol = test.operand, not pol
+    return test, pol
+
+
+def _display_members(v: ast.AST, n: Node, lb: ListBuild, conds: List[Tuple[ast.AST, bool]], base: int = 0) -> Optional[int]:
+    """Record the members of the list-valued expression v; the number of positions it fills when that is fixed (None otherwise)."""
+    if isinstance(v, ast.List):
+        for i, x in enumerate(v.elts):
+            if isinstance(x, ast.Starred):
+                lb.problems.append(f"unpacking inside the list display: {short(v, 60)}")
+                return None
+            lb.members.append(Member(x, n, n.ast, "display", list(conds), base + i))
+        return len(v.elts)
+    if isinstance(v, ast.Call) and call_name(v) == "list" and not v.args and not v.keywords:
+        return 0
+    if isinstance(v, ast.IfExp):
+        t, pol = _strip_not(v.test)
+        a = _display_members(v.body, n, lb, conds + [(t, pol)], base)
+        b = _display_members(v.orelse, n, lb, conds + [(t, not pol)], base)
+        return a if a == b else None
+    if isinstance(v, ast.BinOp) and isinstance(v.op, ast.Add):
+        a = _display_members(v.left, n, lb, conds, base)
+        b = _display_members(v.right, n, lb, conds, base + (a or 0))
+        return a + b if a is not None and b is not None else None
+    if isinstance(v, ast.ListComp):
+        lb.members.append(Member(v.elt, n, n.ast, "comp", list(conds), base))
+        return None
+    lb.not_lists.append(v)
+    return None
+
+
+def list_build(cfg: CFG, name: Optional[str]) -> ListBuild:
+    """The construction of the local list `name` in the function of `cfg` (see ListBuild)."""
+    lb = ListBuild(name)
+    if name is None:
+        lb.problems.append("no local list")
+        return lb
+    for n in cfg.live_nodes():
+        keys = [k for k, strong in cfg.defs_at(n) if k == name and strong]
+        if not keys:
+            continue
+        v = cfg.value_of_def(n, name) if n.kind == "stmt" and isinstance(n.ast, (ast.Assign, ast.AnnAssign)) else None
+        lb.defs.append(n)
+        if v is None:
+            lb.not_lists.append(n.ast)
+            lb.problems.append(f"`{name}` re-bound by {short(n.ast, 60)}")
+        else:
+            _display_members(v, n, lb, [])
+    for c in calls_in(cfg.fn):
+        f = c.func
+        if not (isinstance(f, ast.Attribute) and isinstance(f.value, ast.Name) and f.value.id == name):
+            continue
+        n = cfg.node_of(c)
+        if n is None:
+            continue  # dead code
+        if f.attr in ("append", "insert", "extend") and c.args:
+            lb.members.append(Member(c.args[-1], n, c, f.attr))
+        elif f.attr in ("pop", "remove", "clear", "sort", "reverse", "__setitem__", "__delitem__", "__iadd__"):
+            lb.problems.append(f"`{short(c, 60)}` changes the list in a way the model does not describe")
+    for n in cfg.live_nodes():
+        if n.kind == "stmt" and isinstance(n.ast, (ast.Assign, ast.AugAssign, ast.Delete)):
+            tg = n.ast.targets if not isinstance(n.ast, ast.AugAssign) else [n.ast.target]
+            if any(isinstance(t, ast.Subscript) and dotted(t.value) == name for t in tg):
+                lb.problems.append(f"element store / deletion `{short(n.ast, 60)}`")
+    # the list is bound before anything is added, and never re-bound afterwards
+    for m in lb.members:
+        if m.how in ("display", "comp"):
+            continue
+        if not any(d in lb.defs for d in cfg.defs_reaching(m.node, name)):
+            lb.problems.append(f"`{short(m.site, 60)}` is not reached by a binding of `{name}`")
+        if any(d.id in cfg.reachable_from(m.node) for d in lb.defs):
+            lb.problems.append(f"`{name}` can be re-bound after `{short(m.site, 60)}`")
+    return lb
+
+
 def r8_tournament(ck: Check, repo: Repo) -> None:
     ck.rule("C01.8", "every member of the new population and the returned elite is the result of a .clone( call")
     tour = repo.cls("agilerl.hpo.tournament", "TournamentSelection")
@@ -575,19 +675,18 @@ def r8_tournament(ck: Check, repo: Repo) -> None:
     cfg = CFG(sel.node)
     ev = OwnEval(cfg, alias_roots={"population"})
     newpop = _returned_name(sel, 1)  # the local returned as the new population
-    apps = [c for c in calls_in(sel.node) if last_attr(c) in ("append", "insert", "extend")
-            and newpop is not None and call_name(c).startswith(newpop + ".")]
-    ck.floor("C01.8", len(apps), 2, "append sites building the new population", fn=sel)
-    for c in apps:
-        n = cfg.node_of(c)
-        o = ev.own(c.args[-1], n)
-        is_clone = _is_clone_expr(c.args[-1], cfg, n)
-        ck.ob("C01.8", sel, c, o.level == FRESH and is_clone, "member appended to the new population is a clone",
+    # every way a member gets into it: append / insert / extend calls and the elements of the list display(s) it is bound to
+    lb = list_build(cfg, newpop)
+    ck.floor("C01.8", len(lb.members), 2, "member sites building the new population (append calls / elements of its list display)", fn=sel)
+    for m in lb.members:
+        o = ev.own(m.elt, m.node)
+        is_clone = _is_clone_expr(m.elt, cfg, m.node)
+        ck.ob("C01.8", sel, m.site if m.how not in ("display", "comp") else m.elt, o.level == FRESH and is_clone, "member appended to the new population is a clone",
               detail=f"{o.level}: {o.why}")
-    # the population list itself is a new list
-    defs = [n for n in walk_no_nested(sel.node) if isinstance(n, ast.Assign) and newpop is not None and dotted(n.targets[0]) == newpop]
-    ok = bool(defs) and all(isinstance(d.value, (ast.List, ast.ListComp)) or (isinstance(d.value, ast.Call) and call_name(d.value) == "list" and not d.value.args) for d in defs)
-    ck.ob("C01.8", sel, defs[0] if defs else sel.node, ok, "the new population is a new list object, not the old one")
+    # the population list itself is a new list: every binding of the name is a list display / list() / comprehension (also through a conditional expression or `+`)
+    ok = bool(lb.defs) and not lb.not_lists
+    ck.ob("C01.8", sel, lb.defs[0].ast if lb.defs else sel.node, ok, "the new population is a new list object, not the old one",
+          detail="; ".join(short(x, 60) for x in lb.not_lists))
     ecfg = CFG(eli.node)
     eev = OwnEval(ecfg, alias_roots={"population"})
     for r in [n for n in walk_no_nested(eli.node) if isinstance(n, ast.Return)]:
@@ -705,6 +804,9 @@ def _roots(e: ast.AST, cfg: CFG, n, optcfg: Optional[str] = None, depth: int = 4
 _B = "agilerl/algorithms/core/base.py"
 _M = "agilerl/modules/base.py"
 _T = "agilerl/hpo/tournament.py"
+# select() as written today: the bookkeeping before the tournament loop
+_T_HEAD = ("        new_population = []\n        if self.elitism:  # keep top agent in population\n            new_population.append(elite.clone(wrap=False))\n"
+           "            selection_size = self.population_size - 1\n        else:\n            selection_size = self.population_size\n")
 VARIANTS = [
     ("td3-private-learn-counter", "agilerl/algorithms/td3.py", "        self.learn_counter += 1", "        self._learn_counter += 1", "fire", "C01.10"),
     ("noisy-buffers-non-persistent", "agilerl/modules/custom_components.py", "        self.register_buffer(\"bias_epsilon\", torch.empty(out_features, device=device))", "        self.register_buffer(\"bias_epsilon\", torch.empty(out_features, device=device), persistent=False)", "fire", "C01.12"),
@@ -730,5 +832,11 @@ VARIANTS = [
     ("optimizer-over-parent-nets", _B, "else [cloned_modules[net] for net in opt_config.networks]", "else [getattr(self, net) for net in opt_config.networks]", "fire", "C01.9"),
     ("exclude-dropped", _B, "attributes = {k: v for k, v in attributes if k not in exclude}", "attributes = {k: v for k, v in attributes}", "fire", "C01.9"),
     ("rename-local-ok", _B, "        clone = type(self)(**input_args)\n", "        clone = type(self)(**input_args)\n        _unused = None\n", "silent", None),
+    ("elite-in-conditional-display-ok", _T, _T_HEAD, "        new_population = [elite.clone(wrap=False)] if self.elitism else []\n        selection_size = self.population_size - len(new_population)\n", "silent", None),
+    ("elite-display-per-branch-ok", _T, _T_HEAD, "        if self.elitism:\n            new_population = [elite.clone(wrap=False)]\n        else:\n            new_population = list()\n"
+     "        selection_size = self.population_size - len(new_population)\n", "silent", None),
+    ("elite-in-display-not-cloned", _T, _T_HEAD, "        new_population = [elite] if self.elitism else []\n        selection_size = self.population_size - len(new_population)\n", "fire", "C01.8"),
+    ("old-list-on-one-arm", _T, _T_HEAD, "        new_population = [elite.clone(wrap=False)] if self.elitism else population\n        selection_size = self.population_size - 1 if self.elitism else 0\n", "fire", "C01.8"),
+    ("old-list-copied-shallow", _T, "        new_population = []\n", "        new_population = list(population[:0])\n", "fire", "C01.8"),
     ("fitness-mutated-in-select", _T, "            actor_parent = population[self._tournament(rank)]\n", "            actor_parent = population[self._tournament(rank)]\n            actor_parent.fitness.append(0)\n", "fire", "C01.5"),
 ]
